@@ -1950,9 +1950,24 @@ pub(crate) mod convert {
             deps: &mut Vec<UnitSectionOffset>,
             offset: LocationListsOffset,
         ) -> ConvertResult<()> {
-            let mut locations = self.read_unit.locations(offset)?;
+            // Use the raw entries, because the conversion step converts the expression
+            // of every entry, including entries that `locations` skips (empty ranges
+            // and tombstones).
+            let mut locations = self.read_unit.raw_locations(offset)?;
             while let Some(location) = locations.next()? {
-                self.add_expression_refs(deps, location.data)?;
+                match location {
+                    read::RawLocListEntry::AddressOrOffsetPair { data, .. }
+                    | read::RawLocListEntry::StartxEndx { data, .. }
+                    | read::RawLocListEntry::StartxLength { data, .. }
+                    | read::RawLocListEntry::OffsetPair { data, .. }
+                    | read::RawLocListEntry::DefaultLocation { data }
+                    | read::RawLocListEntry::StartEnd { data, .. }
+                    | read::RawLocListEntry::StartLength { data, .. } => {
+                        self.add_expression_refs(deps, data)?;
+                    }
+                    read::RawLocListEntry::BaseAddress { .. }
+                    | read::RawLocListEntry::BaseAddressx { .. } => {}
+                }
             }
             Ok(())
         }
@@ -1993,11 +2008,18 @@ pub(crate) mod convert {
                     read::Operation::Call {
                         offset: read::DieReference::DebugInfoRef(ref_offset),
                         ..
-                    } => {
+                    }
+                    | read::Operation::ImplicitPointer {
+                        value: ref_offset, ..
+                    }
+                    | read::Operation::VariableValue { offset: ref_offset } => {
                         let offset = ref_offset
                             .to_unit_section_offset(&self.read_unit)
                             .ok_or(ConvertError::InvalidDebugInfoRef)?;
                         deps.push(offset);
+                    }
+                    read::Operation::EntryValue { expression } => {
+                        self.add_expression_refs(deps, read::Expression(expression))?;
                     }
                     _ => {}
                 }
